@@ -296,7 +296,7 @@ func cmdCheck(argv []string) int {
 			return 3
 		}
 		boundsTier := *tier
-		if *tier == "thorough" && thoroughUsesQuickBounds[id] {
+		if *tier == "thorough" && thoroughUsesQuickBounds[id] && os.Getenv("VERIF_THOROUGH_DEEP") == "" {
 			// the deeper bounds of this property did not finish inside the session in which they were last
 			// changed; registered is what ran clean: the quick bounds, with the thorough tier's time limits,
 			// three-solver cross-check and replay budget (stated in the evidence)
